@@ -36,6 +36,9 @@ type vfCfg struct {
 }
 
 func vfNewCache(cfg vfCfg) (*Cache[uint64, vfVal], *vfMon) {
+	// cache scenarios use the small-clock encoding (DESIGN.md §10.2): instants are a fixed base plus
+	// a small symbolic offset, which keeps the solver away from 64-bit division by 1e9
+	vfSet("clock-small", 1)
 	mon := &vfMon{nextID: 1}
 	if cfg.NumCounters == 0 {
 		cfg.NumCounters = 4
